@@ -40,7 +40,8 @@ def run_shard(mod, ctx):
         from .instrument import Reach
         reach = Reach()
         for fn in mod.REACH():
-            reach.add(fn)
+            if fn is not None:
+                reach.add(fn)
         reach.start()
     try:
         mod.run(ctx)
